@@ -1,5 +1,6 @@
 import CollectionModel.Generated.LoopsSet
 import CollectionModel.Model.SetM
+import CollectionModel.Lemmas.SeqLemmas
 /-
   T3L obligation for C02: the binary search TRANSLATED from the current text of
   `set_.findIndex` (Generated/LoopsSet.lean, rewritten on every run; `int` arithmetic wraps
@@ -72,6 +73,325 @@ theorem findIndex_tie {α : Type} [Inhabited α] (rank : α → α → Rank) (l 
 /-- non-vacuity: a three-element set, found and not found -/
 example : Generated.findIndex (3 : Int) (fun i => Seq.getValue [10, 20, 30] i) rankInt (20 : Int) 4 = some (.ok (2, true)) := by rfl
 example : Generated.findIndex (3 : Int) (fun i => Seq.getValue [10, 20, 30] i) rankInt (25 : Int) 4 = some (.ok (2, false)) := by rfl
+
+/-! ### the other methods of `set_`: the translated binary search followed by the list's InsertValue / RemoveValue -/
+
+set_option linter.unusedSectionVars false
+set_option linter.unusedVariables false
+
+variable {α : Type} [Inhabited α]
+
+/-- the search loop ends by its size argument, not by its fuel: more fuel changes nothing -/
+theorem findLoop_fuel (rank : α → α → Rank) (l : List α) (v : α) :
+    ∀ (f first last size : Nat), size < f → 1 ≤ first → last + 1 = first + size → ∀ g, f ≤ g →
+      SetM.findLoop rank l v g first last size = SetM.findLoop rank l v f first last size := by
+  intro f
+  induction f with
+  | zero => intro first last size h; omega
+  | succ f ih =>
+    intro first last size hs h1 hinv g hg
+    obtain ⟨g', rfl⟩ : ∃ k, g = k + 1 := ⟨g - 1, by omega⟩
+    unfold SetM.findLoop
+    by_cases h0 : size = 0
+    · simp [h0]
+    · simp only [h0, if_false]
+      cases Seq.getValue l ((first + size / 2 : Nat) : Int) with
+      | error p => rfl
+      | ok c =>
+        simp only []
+        cases rank v c with
+        | lt => exact ih first (first + size / 2 - 1) (first + size / 2 - first) (by omega) h1 (by omega) g' (by omega)
+        | eq => rfl
+        | gt => exact ih (first + size / 2 + 1) last (last - (first + size / 2)) (by omega) (by omega) (by omega) g' (by omega)
+
+/-- whatever the ranker answers, the search returns a position within `0 … |l|` -/
+theorem findLoop_le (rank : α → α → Rank) (l : List α) (v : α) :
+    ∀ (f first last size : Nat) (i : Nat) (b : Bool), 1 ≤ first → last + 1 = first + size → last ≤ l.length →
+      SetM.findLoop rank l v f first last size = some (.ok (i, b)) → i ≤ l.length := by
+  intro f
+  induction f with
+  | zero => intro first last size i b _ _ _ h; simp [SetM.findLoop] at h
+  | succ f ih =>
+    intro first last size i b h1 hinv hl h
+    unfold SetM.findLoop at h
+    by_cases h0 : size = 0
+    · simp [h0] at h; omega
+    · simp only [h0, if_false] at h
+      split at h
+      · simp at h
+      · split at h
+        · exact ih _ _ _ i b h1 (by omega) (by omega) h
+        · injection h with h; injection h with h; injection h with h1' h2; omega
+        · exact ih _ _ _ i b (by omega) (by omega) hl h
+
+/-- the translated `findIndex` with any sufficient fuel -/
+theorem findIndex_tie_fuel (rank : α → α → Rank) (l : List α) (v : α) (hl : IsInt64 ((l.length : Int) + 1)) (fuel : Nat)
+    (hf : l.length < fuel) :
+    Generated.findIndex (l.length : Int) (fun i => Seq.getValue l i) rank v fuel = findRes (SetM.findIndex rank l v) := by
+  unfold Generated.findIndex SetM.findIndex
+  have h1 := findIndex_loop_tie rank l v hl fuel 1 l.length l.length (by omega) (by omega) (by omega)
+  rw [findLoop_fuel rank l v (l.length + 1) 1 l.length l.length (by omega) (by omega) (by omega) fuel (by omega)] at h1
+  exact h1
+
+theorem findIndex_le (rank : α → α → Rank) (l : List α) (v : α) (i : Nat) (b : Bool)
+    (h : SetM.findIndex rank l v = some (.ok (i, b))) : i ≤ l.length :=
+  findLoop_le rank l v _ 1 l.length l.length i b (by omega) (by omega) (Nat.le_refl _) h
+
+/-- how a model result (`none` = hang) is read as the translated method's result -/
+def setRes {β γ : Type} (f : β → γ) (r : SetM.R β) : Option (Except Panic γ) := r.map (fun e => e.map f)
+
+/-- `set_.AddValue` as written in set.go = `SetM.addValue` -/
+theorem setAddValue_tie (rank : α → α → Rank) (l : List α) (v : α) (fuel : Nat) (hl : IsInt64 ((l.length : Int) + 1))
+    (hf : l.length < fuel) :
+    Generated.setAddValue rank v l fuel = SetM.addValue rank l v := by
+  unfold Generated.setAddValue SetM.addValue
+  rw [findIndex_tie_fuel rank l v hl fuel hf]
+  cases h : SetM.findIndex rank l v with
+  | none => rfl
+  | some e =>
+    cases e with
+    | error p => rfl
+    | ok r =>
+      obtain ⟨slot, found⟩ := r
+      have hle := findIndex_le rank l v slot found h
+      have e1 : (u64 (slot : Int)).toNat = slot := by
+        rw [u64_id (by unfold IsUint64; unfold IsInt64 at hl; omega)]; omega
+      cases found <;> simp [findRes, SetM.bindR, Except.map, e1]
+      cases Seq.insertValue l slot v <;> rfl
+
+/-- `set_.RemoveValue` as written in set.go = `SetM.removeValue` -/
+theorem setRemoveValue_tie (rank : α → α → Rank) (l : List α) (v : α) (fuel : Nat) (hl : IsInt64 ((l.length : Int) + 1))
+    (hf : l.length < fuel) :
+    Generated.setRemoveValue rank v l fuel = SetM.removeValue rank l v := by
+  unfold Generated.setRemoveValue SetM.removeValue
+  rw [findIndex_tie_fuel rank l v hl fuel hf]
+  cases h : SetM.findIndex rank l v with
+  | none => rfl
+  | some e =>
+    cases e with
+    | error p => rfl
+    | ok r =>
+      obtain ⟨index, found⟩ := r
+      cases found <;> simp [findRes, SetM.bindR, Except.map]
+      cases Seq.removeValue l (index : Int) with
+      | error p => rfl
+      | ok q => obtain ⟨x, l'⟩ := q; rfl
+
+/-- `set_.ContainsValue` and `set_.GetIndex` as written in set.go -/
+theorem setContainsValue_tie (rank : α → α → Rank) (l : List α) (v : α) (fuel : Nat) (hl : IsInt64 ((l.length : Int) + 1))
+    (hf : l.length < fuel) :
+    Generated.setContainsValue rank v l fuel = setRes (fun b => (b, l)) (SetM.containsValue rank l v) := by
+  unfold Generated.setContainsValue SetM.containsValue
+  rw [findIndex_tie_fuel rank l v hl fuel hf]
+  cases h : SetM.findIndex rank l v with
+  | none => rfl
+  | some e =>
+    cases e with
+    | error p => rfl
+    | ok r => obtain ⟨i, found⟩ := r; simp [findRes, SetM.bindR, setRes, Except.map]
+
+theorem setGetIndex_tie (rank : α → α → Rank) (l : List α) (v : α) (fuel : Nat) (hl : IsInt64 ((l.length : Int) + 1))
+    (hf : l.length < fuel) :
+    Generated.setGetIndex rank v l fuel = setRes (fun (n : Nat) => ((n : Int), l)) (SetM.getIndex rank l v) := by
+  unfold Generated.setGetIndex SetM.getIndex
+  rw [findIndex_tie_fuel rank l v hl fuel hf]
+  cases h : SetM.findIndex rank l v with
+  | none => rfl
+  | some e =>
+    cases e with
+    | error p => rfl
+    | ok r => obtain ⟨i, found⟩ := r; cases found <;> simp [findRes, SetM.bindR, setRes, Except.map]
+
+/-! ### the bulk methods: one element at a time, in the operand's iteration order -/
+
+theorem addValue_length (rank : α → α → Rank) (l l' : List α) (v : α) (h : SetM.addValue rank l v = some (.ok l')) :
+    l'.length ≤ l.length + 1 := by
+  unfold SetM.addValue SetM.bindR at h
+  cases hf : SetM.findIndex rank l v with
+  | none => simp [hf] at h
+  | some e =>
+    cases e with
+    | error p => simp [hf] at h
+    | ok r =>
+      obtain ⟨slot, found⟩ := r
+      have hle := findIndex_le rank l v slot found hf
+      simp only [hf] at h
+      cases found with
+      | true => simp at h; subst h; omega
+      | false =>
+        simp only [Bool.false_eq_true, if_false] at h
+        rw [Seq.insertValue_spec l slot v hle] at h
+        injection h with h; injection h with h
+        subst h; simp; omega
+
+theorem seqRemoveValue_length (l : List α) (i : Int) (r : α × List α) (h : Seq.removeValue l i = .ok r) : r.2.length ≤ l.length := by
+  cases hp : SeqSpec.pos l.length i with
+  | some p =>
+    rw [Seq.removeValue_some l i p hp] at h
+    injection h with h; subst h
+    simp [List.length_eraseIdx]
+    split <;> omega
+  | none =>
+    obtain ⟨c, hc⟩ := Seq.removeValue_none l i hp
+    rw [hc] at h; cases h
+
+theorem removeValue_length (rank : α → α → Rank) (l l' : List α) (v : α) (h : SetM.removeValue rank l v = some (.ok l')) :
+    l'.length ≤ l.length := by
+  unfold SetM.removeValue SetM.bindR at h
+  cases hf : SetM.findIndex rank l v with
+  | none => simp [hf] at h
+  | some e =>
+    cases e with
+    | error p => simp [hf] at h
+    | ok r =>
+      obtain ⟨index, found⟩ := r
+      simp only [hf] at h
+      cases found with
+      | false => simp at h; subst h; omega
+      | true =>
+        simp only [if_true] at h
+        cases hr : Seq.removeValue l (index : Int) with
+        | error p => simp [hr, Except.map] at h
+        | ok q =>
+          simp only [hr, Except.map] at h
+          injection h with h; injection h with h
+          subst h
+          exact seqRemoveValue_length l _ q hr
+
+theorem setAddValues_loop_tie (rank : α → α → Rank) (values : List α) (bound : Nat) (hb : IsInt64 ((bound : Int) + 1)) :
+    ∀ (it l : List α) (fuel : Nat), l.length + it.length ≤ bound → l.length + 2 * it.length + 1 < fuel →
+      Generated.setAddValues_loop1 rank values fuel it l = SetM.addValues rank l it := by
+  intro it
+  induction it with
+  | nil =>
+    intro l fuel _ hf
+    obtain ⟨f, rfl⟩ : ∃ k, fuel = k + 1 := ⟨fuel - 1, by omega⟩
+    simp [Generated.setAddValues_loop1, SetM.addValues]
+  | cons x xs ih =>
+    intro l fuel hlen hf
+    obtain ⟨f, rfl⟩ : ∃ k, fuel = k + 1 := ⟨fuel - 1, by omega⟩
+    simp only [List.length_cons] at hlen hf
+    unfold Generated.setAddValues_loop1
+    simp only [List.isEmpty_cons, Bool.not_false, if_true, Seq.itNext, SetM.addValues]
+    rw [setAddValue_tie rank l x f (by unfold IsInt64 at *; omega) (by omega)]
+    cases h : SetM.addValue rank l x with
+    | none => rfl
+    | some e =>
+      cases e with
+      | error p => rfl
+      | ok l' =>
+        have := addValue_length rank l l' x h
+        simp only [bindO_ok, SetM.bindR]
+        exact ih l' f (by omega) (by omega)
+
+/-- `set_.AddValues` as written in set.go = `SetM.addValues` -/
+theorem setAddValues_tie (rank : α → α → Rank) (l vs : List α) (fuel : Nat) (hb : IsInt64 ((l.length : Int) + (vs.length : Int) + 1))
+    (hf : l.length + 2 * vs.length + 1 < fuel) :
+    Generated.setAddValues rank vs l fuel = SetM.addValues rank l vs := by
+  unfold Generated.setAddValues
+  exact setAddValues_loop_tie rank vs (l.length + vs.length) (by unfold IsInt64 at *; omega) vs l fuel (Nat.le_refl _) hf
+
+theorem setRemoveValues_loop_tie (rank : α → α → Rank) (values : List α) (bound : Nat) (hb : IsInt64 ((bound : Int) + 1)) :
+    ∀ (it l : List α) (fuel : Nat), l.length ≤ bound → l.length + it.length + 1 < fuel →
+      Generated.setRemoveValues_loop1 rank values fuel it l = SetM.removeValues rank l it := by
+  intro it
+  induction it with
+  | nil =>
+    intro l fuel _ hf
+    obtain ⟨f, rfl⟩ : ∃ k, fuel = k + 1 := ⟨fuel - 1, by omega⟩
+    simp [Generated.setRemoveValues_loop1, SetM.removeValues]
+  | cons x xs ih =>
+    intro l fuel hlen hf
+    obtain ⟨f, rfl⟩ : ∃ k, fuel = k + 1 := ⟨fuel - 1, by omega⟩
+    simp only [List.length_cons] at hf
+    unfold Generated.setRemoveValues_loop1
+    simp only [List.isEmpty_cons, Bool.not_false, if_true, Seq.itNext, SetM.removeValues]
+    rw [setRemoveValue_tie rank l x f (by unfold IsInt64 at *; omega) (by omega)]
+    cases h : SetM.removeValue rank l x with
+    | none => rfl
+    | some e =>
+      cases e with
+      | error p => rfl
+      | ok l' =>
+        have := removeValue_length rank l l' x h
+        simp only [bindO_ok, SetM.bindR]
+        exact ih l' f (by omega) (by omega)
+
+/-- `set_.RemoveValues` as written in set.go = `SetM.removeValues` -/
+theorem setRemoveValues_tie (rank : α → α → Rank) (l vs : List α) (fuel : Nat) (hb : IsInt64 ((l.length : Int) + 1))
+    (hf : l.length + vs.length + 1 < fuel) :
+    Generated.setRemoveValues rank vs l fuel = SetM.removeValues rank l vs := by
+  unfold Generated.setRemoveValues
+  exact setRemoveValues_loop_tie rank vs l.length hb vs l fuel (Nat.le_refl _) hf
+
+theorem setContainsAny_loop_tie (rank : α → α → Rank) (values l : List α) (hl : IsInt64 ((l.length : Int) + 1)) :
+    ∀ (it : List α) (fuel : Nat), l.length + it.length + 1 < fuel →
+      Generated.setContainsAny_loop1 rank values fuel it l = setRes (fun b => (b, l)) (SetM.containsAny rank l it) := by
+  intro it
+  induction it with
+  | nil =>
+    intro fuel hf
+    obtain ⟨f, rfl⟩ : ∃ k, fuel = k + 1 := ⟨fuel - 1, by omega⟩
+    simp [Generated.setContainsAny_loop1, SetM.containsAny, setRes, Except.map]
+  | cons x xs ih =>
+    intro fuel hf
+    obtain ⟨f, rfl⟩ : ∃ k, fuel = k + 1 := ⟨fuel - 1, by omega⟩
+    simp only [List.length_cons] at hf
+    unfold Generated.setContainsAny_loop1
+    simp only [List.isEmpty_cons, Bool.not_false, if_true, Seq.itNext, SetM.containsAny]
+    rw [setContainsValue_tie rank l x f hl (by omega)]
+    cases h : SetM.containsValue rank l x with
+    | none => rfl
+    | some e =>
+      cases e with
+      | error p => rfl
+      | ok b =>
+        cases b with
+        | true => simp [setRes, SetM.bindR, Except.map]
+        | false =>
+          simp only [setRes, SetM.bindR, Except.map, Option.map, bindO_ok, Bool.false_eq_true, if_false]
+          exact ih f (by omega)
+
+theorem setContainsAll_loop_tie (rank : α → α → Rank) (values l : List α) (hl : IsInt64 ((l.length : Int) + 1)) :
+    ∀ (it : List α) (fuel : Nat), l.length + it.length + 1 < fuel →
+      Generated.setContainsAll_loop1 rank values fuel it l = setRes (fun b => (b, l)) (SetM.containsAll rank l it) := by
+  intro it
+  induction it with
+  | nil =>
+    intro fuel hf
+    obtain ⟨f, rfl⟩ : ∃ k, fuel = k + 1 := ⟨fuel - 1, by omega⟩
+    simp [Generated.setContainsAll_loop1, SetM.containsAll, setRes, Except.map]
+  | cons x xs ih =>
+    intro fuel hf
+    obtain ⟨f, rfl⟩ : ∃ k, fuel = k + 1 := ⟨fuel - 1, by omega⟩
+    simp only [List.length_cons] at hf
+    unfold Generated.setContainsAll_loop1
+    simp only [List.isEmpty_cons, Bool.not_false, if_true, Seq.itNext, SetM.containsAll]
+    rw [setContainsValue_tie rank l x f hl (by omega)]
+    cases h : SetM.containsValue rank l x with
+    | none => rfl
+    | some e =>
+      cases e with
+      | error p => rfl
+      | ok b =>
+        cases b with
+        | false => simp [setRes, SetM.bindR, Except.map]
+        | true =>
+          simp only [setRes, SetM.bindR, Except.map, Option.map, bindO_ok, Bool.not_true, Bool.false_eq_true, if_false]
+          exact ih f (by omega)
+
+/-- `set_.ContainsAny` / `set_.ContainsAll` as written in set.go -/
+theorem setContainsAny_tie (rank : α → α → Rank) (l vs : List α) (fuel : Nat) (hl : IsInt64 ((l.length : Int) + 1))
+    (hf : l.length + vs.length + 1 < fuel) :
+    Generated.setContainsAny rank vs l fuel = setRes (fun b => (b, l)) (SetM.containsAny rank l vs) := by
+  unfold Generated.setContainsAny
+  exact setContainsAny_loop_tie rank vs l hl vs fuel hf
+
+theorem setContainsAll_tie (rank : α → α → Rank) (l vs : List α) (fuel : Nat) (hl : IsInt64 ((l.length : Int) + 1))
+    (hf : l.length + vs.length + 1 < fuel) :
+    Generated.setContainsAll rank vs l fuel = setRes (fun b => (b, l)) (SetM.containsAll rank l vs) := by
+  unfold Generated.setContainsAll
+  exact setContainsAll_loop_tie rank vs l hl vs fuel hf
 
 end Tie
 end CM
